@@ -705,3 +705,14 @@ fire("C06", "edge-matrix-float32", "R6.7", E(EL, "EdgeListVectorizer.fit", "    
      "seeded r3_C06: sums above 2**24 are rounded")
 silent("C06", "edge-matrix-float64-explicit", E(EL, "EdgeListVectorizer.fit", "            shape=(max_row, max_col),\n", "            shape=(max_row, max_col),\n            dtype=np.float64,\n"),
        "the precision of the values spelled out")
+
+# --- C04: coo_sum_duplicates (genuine defect c71e6d2; seeded r3_C04)
+_CSD_OLD = '    sum_ind = lower_lim\n    this_row = coo.row[lower_lim]\n    this_col = coo.col[lower_lim]\n    this_val = np.float32(0)\n    this_key = coo.key[lower_lim]\n\n    for i in range(lower_lim, upper_lim):\n        if coo.key[i] == this_key:\n            this_val += coo.val[i]\n        else:\n            coo.row[sum_ind] = this_row\n            coo.col[sum_ind] = this_col\n            coo.val[sum_ind] = this_val\n            coo.key[sum_ind] = this_key\n            this_row = coo.row[i]\n            this_col = coo.col[i]\n            this_val = coo.val[i]\n            this_key = coo.key[i]\n            sum_ind += 1\n\n    if upper_lim > lower_lim:\n        coo.row[sum_ind] = this_row\n        coo.col[sum_ind] = this_col\n        coo.val[sum_ind] = this_val\n        coo.key[sum_ind] = this_key\n        sum_ind += 1\n\n    coo.ind[0] = sum_ind\n'
+_CSD_BAD = '    sum_ind = lower_lim\n    for i in range(lower_lim + 1, upper_lim):\n        if coo.key[i] == coo.key[sum_ind]:\n            coo.val[sum_ind] += coo.val[i]\n        else:\n            sum_ind += 1\n            coo.row[sum_ind] = coo.row[i]\n            coo.col[sum_ind] = coo.col[i]\n            coo.val[sum_ind] = coo.val[i]\n            coo.key[sum_ind] = coo.key[i]\n\n    coo.ind[0] = sum_ind + 1\n'
+_CSD_GOOD = '    sum_ind = lower_lim\n    for i in range(lower_lim + 1, upper_lim):\n        if coo.key[i] == coo.key[sum_ind]:\n            coo.val[sum_ind] += coo.val[i]\n        else:\n            sum_ind += 1\n            coo.row[sum_ind] = coo.row[i]\n            coo.col[sum_ind] = coo.col[i]\n            coo.val[sum_ind] = coo.val[i]\n            coo.key[sum_ind] = coo.key[i]\n\n    if upper_lim > lower_lim:\n        sum_ind += 1\n    coo.ind[0] = sum_ind\n'
+fire("C04", "last-run-compared-with-stale-slot", "R4.7", E(COO, "coo_sum_duplicates", "    if upper_lim > lower_lim:\n        coo.row[sum_ind] = this_row", "    if this_key != coo.key[upper_lim]:\n        coo.row[sum_ind] = this_row"),
+     "revert of c71e6d2: the last run is dropped when the stale slot past the live region holds the same key")
+fire("C04", "compaction-advances-on-empty-flush", "R4.8", E(COO, "coo_sum_duplicates", _CSD_OLD, _CSD_BAD),
+     "seeded r3_C04: in-place unique compaction ending in ind = sum_ind + 1 - an empty flush makes a stale slot live")
+silent("C04", "compaction-guarded", E(COO, "coo_sum_duplicates", _CSD_OLD, _CSD_GOOD),
+       "the same compaction with the advance under a non-empty test")
